@@ -5,6 +5,7 @@ import (
 	"math"
 	"testing"
 	"time"
+	"verif/internal/gast"
 
 	"pgregory.net/rapid"
 
@@ -66,7 +67,40 @@ func TestC06(t *testing.T) {
 		}
 		c.Listeners = rapid.IntRange(1, 3).Draw(rt, "listeners")
 		start := time.Now()
-		rep, v := runValidated(rt, c, "C06")
+		// the validated runs happen on a goroutine of their own: a run that never returns (a lock that is not
+		// released, a loop that ignores the budget) is reported after 20 s instead of wedging the worker
+		type outcome struct {
+			rep *val.Report
+			v   []string
+		}
+		done := make(chan outcome, 1)
+		go func() {
+			var rep *val.Report
+			for i := 0; i < repsFor(); i++ {
+				rep = val.Run(c, prep)
+				if v := rep.Of("C06"); len(v) > 0 || rep.Harness != "" {
+					done <- outcome{rep, v}
+					return
+				}
+			}
+			done <- outcome{rep, nil}
+		}()
+		var rep *val.Report
+		var v []string
+		select {
+		case o := <-done:
+			rep, v = o.rep, o.v
+			if rep.Harness != "" && len(v) == 0 {
+				rt.Fatalf("harness: %s\n%s", rep.Harness, c.Text)
+			}
+			if len(v) > 0 {
+				sawFailure = true
+			}
+		case <-time.After(20 * time.Second):
+			msg := fmt.Sprintf("Execute did not return within 20 s with MaxCycle=%d: the run neither reached quiescence nor the cycle limit\n--- rules ---\n%s", c.MaxCycle, gast.RulesString(c.Rules))
+			path := col.Violation("C06", "C06/execute_did_not_return", msg, toRSCase(c))
+			rt.Fatalf("C06 violated: %s (replay %s)", msg, path)
+		}
 		if d := time.Since(start); d > 20*time.Second {
 			v = append(v, fmt.Sprintf("Execute needed %v (hang guard)", d))
 		}
